@@ -253,3 +253,11 @@ def run(ctx):
     r5(ctx)
     r6(ctx)
     C02.r4(ctx)   # R7: a released batch of `capacity` data segments + FIN fits the receive queue
+
+
+def extra(tier, repo, work, insts):
+    """E5 compile-fail witnesses (thorough tier)"""
+    if tier != "thorough":
+        return []
+    from engine.side import witnesses
+    return witnesses("C08", repo, work)
